@@ -145,10 +145,19 @@ CLAIMED["C15"] = {
             "(path_trace_stored); an Announce of the parent whose path contains the own identity changes nothing at all - no data set, "
             "no foreign master record, no timer, no forwarding (loop_discarded). Three genuine defects found by the oracle were "
             "repaired by fix: commits (own parser rejected frames ending in an empty TLV; announce timer panicked when a TLV filled the "
-            "room exactly; a looping Announce updated the data sets before being discarded).",
-    "note": "Trusted: Lean kernel; generators. The daemon's TlvForwarder (broadcast channel, lag / overflow) is outside the model: the "
-            "host is modelled as handing a queue to the announce timer.",
-    "technique": "Lean 4 theorems (induction over the forwarding loop, TLV codec lemmas) + differential correspondence + independent TLV oracle",
+            "room exactly; a looping Announce updated the data sets before being discarded). Daemon side (Model/Forwarder.lean: the "
+            "tokio broadcast channel as a log with per-receiver cursors, TlvForwarder with its peeked value, capacity / size test / "
+            "resubscribe and each port task's clearing rule translated from tlvforwarder.rs and main.rs): next_if_smaller never hands "
+            "out more than asked (forwarder_hands_out_what_fits); while a port task is fewer than 128 values behind, its forwarder is "
+            "exactly the FIFO queue with 'take the head if it fits' that the port-level theorems assume (forwarder_is_a_queue, "
+            "forwarder_forward_appends, forwarder_is_loose); for every history incl. lag, overflow, empty() and BMCA hand-backs, what a "
+            "forwarder handed out is position by position a subsequence of what was sent: at most once per port, in arrival order, "
+            "unmodified (forwarder_history); and neither port task's clearing rule touches the queue of a Master port "
+            "(port_tasks_keep_master_queue - false before fix 76e768f: the ethernet task emptied exactly the master ports' queues).",
+    "note": "Trusted: Lean kernel; generators. The port tasks of main.rs need sockets and are not executed: the clearing rule is read "
+            "from the source text (by the translator for the model, independently by the harness for the real TlvForwarder) and applied "
+            "at the BMCA hand-back; everything else in the tasks (timers, sockets, action dispatch) is not modelled.",
+    "technique": "Lean 4 theorems (induction over the forwarding loop, TLV codec lemmas, history invariant of the broadcast queue) + translated glue + differential correspondence + independent TLV oracle",
 }
 
 CLAIMED["C12"] = {
